@@ -53,7 +53,17 @@ fn success_step(tree: &TreeSpec, kind: u8, sel: u16, sel2: u16, capi: bool) -> W
     let all = tree.paths();
     let any = |v: &Vec<B>, s: u16| -> B { if v.is_empty() { B::new("missing") } else { v[pick(s, v.len())].clone() } };
     let newin = |s: u16, name: &str| -> B { dirs[pick(s, dirs.len())].join(name.as_bytes()) };
-    let op = match kind % 14 {
+    // calls whose success is "the same object again": a fault must not turn them into
+    // success with another object (reopen and the one-shot open go through the
+    // magic-link follow of the internal procfs handle)
+    match kind % 18 {
+        14 => return WStep::Reopen { path: any(&all, sel), nofollow: false, flags: libc::O_PATH, capi },
+        15 => return WStep::Reopen { path: any(&files, sel), nofollow: sel2 & 1 == 1, flags: libc::O_RDONLY | libc::O_NONBLOCK, capi },
+        16 => return WStep::Root { capi, op: Op::Open { path: any(&all, sel), flags: libc::O_PATH } },
+        17 => return WStep::ProcOpen { base: PBase::SelfBase, path: B::new(["fd/0", "cwd", "exe", "status"][sel as usize % 4]), flags: if sel2 & 1 == 1 { libc::O_PATH } else { libc::O_RDONLY }, follow: true, capi },
+        _ => {}
+    }
+    let op = match kind % 18 {
         0 => Op::RemoveAll { path: any(&all, sel) },
         1 => Op::RemoveFile { path: any(&files, sel) },
         2 => Op::RemoveAll { path: any(&files, sel) },
